@@ -253,6 +253,33 @@ def coqchk(prop_files, timeout=2400):
     return r
 
 
+def cached_print_assumptions(prop_files, names, closure):
+    """Print Assumptions of every theorem, cached by the content of every file the theorems depend on
+    (so a change anywhere in the dependency closure, incl. the regenerated constants, re-runs it)."""
+    h = hashlib.sha256()
+    files = sorted(closure) if closure else None
+    if files is None:
+        return print_assumptions(prop_files, names)
+    for f in files:
+        try:
+            h.update(f.encode())
+            h.update(open(os.path.join(COQ, f), "rb").read())
+        except FileNotFoundError:
+            return print_assumptions(prop_files, names)
+    h.update(" ".join(names).encode())
+    cache = os.path.join(BUILD, "pa_%s_%s.json" % ("_".join(prop_files), h.hexdigest()[:16]))
+    if os.path.exists(cache):
+        try:
+            return json.load(open(cache)), "cached"
+        except Exception:
+            pass
+    pa, raw = print_assumptions(prop_files, names)
+    if pa is not None and len(pa) == len(names):
+        os.makedirs(BUILD, exist_ok=True)
+        json.dump(pa, open(cache, "w"))
+    return pa, raw
+
+
 def theorem_names(prop_files):
     names = []
     for pf in prop_files:
@@ -508,7 +535,7 @@ class Ctx:
             self.coverage["discharged"] = 0
             self.proof_broken = "grep gate: " + "; ".join(bad[:5])
             return False
-        pa, raw = print_assumptions(prop_files, names)
+        pa, raw = cached_print_assumptions(prop_files, names, closure)
         if pa is None:
             self.coverage["discharged"] = 0
             self.proof_broken = "Print Assumptions failed: " + raw[-500:]
